@@ -203,7 +203,7 @@ def check_pair(ctx, rep, src_spec, sup, maps):
 
 
 def run(ctx, rep):
-    n = ctx.pick(150, 4000)
+    n = ctx.pick(600, 8000)
     i = 0
     for i in range(n):
         src = gen.gen_tree(ctx.rng, depth=3, incompat=ctx.rng.random() < .2)
